@@ -374,6 +374,7 @@ def first_disagreement(impl, model, project=None):
         if a != "<missing>" and b != "<missing>":
             oa, outa, sa = split_line(a)
             ob, outb, sb = split_line(b)
+            sa = re.sub(r" lk=\d+", "", sa)      # live key objects: measured on the implementation only
             if project is not None:
                 sa, sb = project(sa), project(sb)
             if oa == ob and norm_err(outa) == norm_err(outb) and (sa == sb or outa.startswith("ERR")):
